@@ -12,6 +12,7 @@ CONSTANTS
   MaxClient = 0
   MaxCrash = 0
   MaxHalf = 0
+  MaxCfg = 0
   MaxRead = 0
   MaxSnap = 0
   SnapSize = 1
